@@ -60,7 +60,8 @@ CHECK = {
                      "P3R.Props.C04SchedWF", "P3R.Witness.C04SchedWF",
                      "P3R.Props.C04SchedCols", "P3R.Witness.C04SchedCols",
                      "P3R.Props.EndToEnd", "P3R.Props.EndToEndReach", "P3R.Witness.EndToEnd",
-                     "P3R.Props.C04NoSkip", "P3R.Witness.C04NoSkip"],
+                     "P3R.Props.C04NoSkip", "P3R.Witness.C04NoSkip",
+                     "P3R.Props.C04LateFresh", "P3R.Witness.C04LateFresh"],
     "theorems": ["P3R.C04.readers_agree", "P3R.C04.row_sat_add", "P3R.C04.row_sat_mul", "P3R.C04.row_sat_bool",
                  "P3R.C04.row_sat_muladd", "P3R.C04.row_sat_horner", "P3R.C04.accepted_alu_sat_partial", "P3R.C04.const_not_bound",
                  # composition: balanced bus + single creator (C09) + row constraints on cells => a satisfying assignment exists
@@ -140,10 +141,23 @@ CHECK = {
                  "P3R.C04N.compiled_no_skip_of_lateFresh", "P3R.C04N.compiled_no_skip_partial",
                  "P3R.C04N.e2e_soundness_reachable_partial", "P3R.C04N.e2e_roundtrip_reachable_partial",
                  "P3R.Witness.C04NoSkip.skip_occurs", "P3R.Witness.C04NoSkip.cert_on_example", "P3R.Witness.C04NoSkip.lateFresh_on_example",
-                 "P3R.Witness.C04NoSkip.no_skip_applies", "P3R.Witness.C04NoSkip.soundness_applies'", "P3R.Witness.C04NoSkip.lateFresh_needed"],
+                 "P3R.Witness.C04NoSkip.no_skip_applies", "P3R.Witness.C04NoSkip.soundness_applies'", "P3R.Witness.C04NoSkip.lateFresh_needed",
+                 # Props/C04LateFresh: compile_lateFresh — the hypothesis left open by C04NoSkip is a theorem. (A) invariant through the four passes of
+                 # lower: the slot of a Const row emitted by emit_operations (the mul − const fast-path constant, allocated for the synthetic id
+                 # nodes.len()) is below next and unused (not in expr_to_widx, not in the connect-class table, no ALU out, no hint output), pass 4
+                 # emits no Public row, passes 1–3 no ALU row; (B) dedup: keys and values of every rewrite map are ALU out slots, unused slots are
+                 # fixed points and nothing is mapped onto them, non-ALU rows all kept in order; (C) fuse keeps non-ALU rows verbatim, fused rows
+                 # are ALU rows. Capstones with ReachablePrim b as the ONLY hypothesis on the program.
+                 "P3R.C04L.lower_lateP", "P3R.C04L.dedup_lateP", "P3R.C04L.fuse_lateP", "P3R.C04L.lateFresh_of_lateP", "P3R.C04L.compile_lateFresh",
+                 "P3R.C04L.compiled_no_skip_of_guards", "P3R.C04L.compiled_no_skip", "P3R.C04L.e2e_soundness_reachable'",
+                 "P3R.C04L.e2e_roundtrip_reachable'",
+                 "P3R.Witness.C04LateFresh.l_reachable", "P3R.Witness.C04LateFresh.late_const_occurs", "P3R.Witness.C04LateFresh.lateFresh_applies",
+                 "P3R.Witness.C04LateFresh.no_skip_applies", "P3R.Witness.C04LateFresh.no_skip_applies_E",
+                 "P3R.Witness.C04LateFresh.soundness_applies", "P3R.Witness.C04LateFresh.roundtrip_applies",
+                 "P3R.Witness.C04LateFresh.connectsOk_needed"],
     "run": c04_run,
     "trusted_base": ["ideal STARK/LogUp: an accepted proof implies row constraints hold on some committed trace and the WitnessChecks bus is balanced as a signed multiset (DESIGN §2)"],
-    "assumptions": ["the Lean composition theorem holds for every extension degree D >= 1 (accepted_sat_gen: cells in the base field, D per operand, bus tuples (slot, v_0..v_{D-1}), coefficient-wise row constraints, relations in the extension ring L generated by a root alpha of the ALU's multiplication kind — KindRoot; accepted_sat is its D = 1 instance, accepted_sat_of_gen); accepted_sat(_gen) speaks about single-step Horner rows of the unscheduled abstract trace; the SCHEDULED table is covered by scheduled_accepted_sat_bus (Props/C04Sched, C04SchedBus): for sched = computeSchedule preps lanes kmax, the concrete preprocessed matrix prepRow = scheduledPrepRows (zero rows up to height H), ANY main-trace row function, (a) all of aluConstraints D lanes kmax kind vanishing on every window (r, r+1 mod H) and (b) the packed bus schedBus (other tables' cells + per scheduled entry what the table declares: packed rows send ONE b tuple with the summed multiplicity and nothing for the silent intermediate outputs) balanced as a signed multiset of D-tuples imply an assignment in the extension ring satisfying every op (single ops in every lane, chain starts after a separator via the F22 constraint, packed rows of every arity via C11.packed_window_sound_gen at ring level, cover by C11.computeSchedule_cover, bus by packed_tuple_net_gen + bus_single_valued_gen); the lane-0 discipline SchedWF of the schedule (Horner entries only on lane 0 below row 0, predecessor = previous chain entry or separator, packed arity in 2..K_max) is DERIVED from the model of compute_schedule for every op list, lanes >= 1 and K_max (computeSchedule_wf, Props/C04SchedWF: invariants of splitChains / fill_row / the chain loop; scheduled_accepted_sat_bus' has no SchedWF hypothesis); the integer-level reading hpk of the scheduler's two tests is DERIVED (hpk_of_tested, scheduled_accepted_sat_bus'', Props/C04SchedCols) from the per-op column encoding PrepBus (index columns = natK slot, multiplicity columns = images of eventMult; = what common.rs writes, read not modelled) when b slots have distinct images and non-zero out multiplicities non-zero images (natK_inj_below / intCast_zero_below: slot indices and read counts below the characteristic); aluInteractions on a row of the scheduled matrix is read entry by entry (aluInteractions_prepRow) and its tuples on single-op lanes / lane 0 of a packed row are the K-images of the integer interactions (lane_op_image, lane_packed_image: ONE b tuple with the image of the summed multiplicity, last step's out); its explicit hypotheses that are NOT derived: the images of the packed EXTRA tuples (later steps' (a, c) lookups) and the transfer of a K-valued balance to the integer tuple balance are not proved (hbal stays on integer multiplicities), the selector columns of op j encode its kind (PrepSel, = the 12->13 column conversion of common.rs), the integer-level reading hpk of the scheduler's two tests (equal b slot, intermediate out multiplicity 0; the K-valued columns b_idx / mult_out agree with it when slot indices and read counts stay below the characteristic), multiplicities are integers (the field-valued multiplicity columns of aluInteractions are their images), at most one creator per slot over the unpacked cells (C09.one_creator up to the schedule's permutation), MUL_ADD / HORNER ops carry a c operand; the row selector is one non-zero value `sel` (one-hot selectors of the preprocessed trace; window_lane_blocks ties the constraint vectors to aluConstraints); accepted_sat(_gen) assumes no ALU operand is off the bus (role `skip`; 0 of 36k generated rows in the C09 run) and that a Const row's cells denote the circuit's constant (false today: finding F4); the permutation rounds of the Poseidon tables are uninterpreted (control part modelled in Model/PoseidonCtl, tied by C11's run); recompose rows carry no constraint (F5b); END TO END (Props/EndToEnd, e2e_soundness / _gen / _scheduled): composed with C03 (compile_chain_sound_total) and C02 (lower_passes_check_ok) the satisfying assignment of the op list becomes an assignment to the source program's expressions satisfying every node relation / connect / assert — hypotheses: BState.Ok (every Reachable program), compile b = ok c, genPrep c = some p, the acceptance conditions, and hnoskip (no operand of the role scan off the bus: decidable on p; for ReachablePrim programs DERIVED in Props/C04NoSkip — compiled_no_skip_partial, e2e_soundness_reachable_partial — from the shape run of the compiled circuit and the def-before-use certificate, up to ONE decidable syntactic hypothesis lateFresh c.ops: no Const/Public row placed after the first ALU row carries a hint output's slot; true of every lowering by construction, its proof through emit_operations is not threaded; Witness.C04NoSkip.lateFresh_needed shows it cannot be dropped at list level); hornerChained and the well-formedness of the compiled ops are derived from compile (compile_ops_eq, compile_ops_wf)"],
+    "assumptions": ["the Lean composition theorem holds for every extension degree D >= 1 (accepted_sat_gen: cells in the base field, D per operand, bus tuples (slot, v_0..v_{D-1}), coefficient-wise row constraints, relations in the extension ring L generated by a root alpha of the ALU's multiplication kind — KindRoot; accepted_sat is its D = 1 instance, accepted_sat_of_gen); accepted_sat(_gen) speaks about single-step Horner rows of the unscheduled abstract trace; the SCHEDULED table is covered by scheduled_accepted_sat_bus (Props/C04Sched, C04SchedBus): for sched = computeSchedule preps lanes kmax, the concrete preprocessed matrix prepRow = scheduledPrepRows (zero rows up to height H), ANY main-trace row function, (a) all of aluConstraints D lanes kmax kind vanishing on every window (r, r+1 mod H) and (b) the packed bus schedBus (other tables' cells + per scheduled entry what the table declares: packed rows send ONE b tuple with the summed multiplicity and nothing for the silent intermediate outputs) balanced as a signed multiset of D-tuples imply an assignment in the extension ring satisfying every op (single ops in every lane, chain starts after a separator via the F22 constraint, packed rows of every arity via C11.packed_window_sound_gen at ring level, cover by C11.computeSchedule_cover, bus by packed_tuple_net_gen + bus_single_valued_gen); the lane-0 discipline SchedWF of the schedule (Horner entries only on lane 0 below row 0, predecessor = previous chain entry or separator, packed arity in 2..K_max) is DERIVED from the model of compute_schedule for every op list, lanes >= 1 and K_max (computeSchedule_wf, Props/C04SchedWF: invariants of splitChains / fill_row / the chain loop; scheduled_accepted_sat_bus' has no SchedWF hypothesis); the integer-level reading hpk of the scheduler's two tests is DERIVED (hpk_of_tested, scheduled_accepted_sat_bus'', Props/C04SchedCols) from the per-op column encoding PrepBus (index columns = natK slot, multiplicity columns = images of eventMult; = what common.rs writes, read not modelled) when b slots have distinct images and non-zero out multiplicities non-zero images (natK_inj_below / intCast_zero_below: slot indices and read counts below the characteristic); aluInteractions on a row of the scheduled matrix is read entry by entry (aluInteractions_prepRow) and its tuples on single-op lanes / lane 0 of a packed row are the K-images of the integer interactions (lane_op_image, lane_packed_image: ONE b tuple with the image of the summed multiplicity, last step's out); its explicit hypotheses that are NOT derived: the images of the packed EXTRA tuples (later steps' (a, c) lookups) and the transfer of a K-valued balance to the integer tuple balance are not proved (hbal stays on integer multiplicities), the selector columns of op j encode its kind (PrepSel, = the 12->13 column conversion of common.rs), the integer-level reading hpk of the scheduler's two tests (equal b slot, intermediate out multiplicity 0; the K-valued columns b_idx / mult_out agree with it when slot indices and read counts stay below the characteristic), multiplicities are integers (the field-valued multiplicity columns of aluInteractions are their images), at most one creator per slot over the unpacked cells (C09.one_creator up to the schedule's permutation), MUL_ADD / HORNER ops carry a c operand; the row selector is one non-zero value `sel` (one-hot selectors of the preprocessed trace; window_lane_blocks ties the constraint vectors to aluConstraints); accepted_sat(_gen) assumes no ALU operand is off the bus (role `skip`; 0 of 36k generated rows in the C09 run) and that a Const row's cells denote the circuit's constant (false today: finding F4); the permutation rounds of the Poseidon tables are uninterpreted (control part modelled in Model/PoseidonCtl, tied by C11's run); recompose rows carry no constraint (F5b); END TO END (Props/EndToEnd, e2e_soundness / _gen / _scheduled): composed with C03 (compile_chain_sound_total) and C02 (lower_passes_check_ok) the satisfying assignment of the op list becomes an assignment to the source program's expressions satisfying every node relation / connect / assert — hypotheses: BState.Ok (every Reachable program), compile b = ok c, genPrep c = some p, the acceptance conditions, and hnoskip (no operand of the role scan off the bus: decidable on p; for ReachablePrim programs DERIVED — Props/C04NoSkip (from the shape run of the compiled circuit and the def-before-use certificate, up to the decidable syntactic condition lateFresh c.ops: no Const/Public row placed after the first ALU row carries a hint output's slot; Witness.C04NoSkip.lateFresh_needed: not droppable at list level) and Props/C04LateFresh (compile_lateFresh: lateFresh holds for the compiled list of every builder state with connectsOk, by an invariant through emit_operations, dedup and fuse) — so compiled_no_skip, e2e_soundness_reachable', e2e_roundtrip_reachable' have ReachablePrim b as the only hypothesis on the program; Witness.C04LateFresh.connectsOk_needed: at model level a raw connect naming the synthetic id nodes.len() breaks lateFresh, no builder call returns that id); hornerChained and the well-formedness of the compiled ops are derived from compile (compile_ops_eq, compile_ops_wf)"],
 }
 
 MANIFEST_ENTRY = {
